@@ -56,7 +56,7 @@ def _gen_file(rng, formats, tier, max_frames=None):
         knobs['has_box_kw'] = True
     if fmt == 'lammpstrj':
         # legal `dump custom` column layouts other than the one mdtraj writes (the reader detects the columns per file)
-        knobs['layout'] = rng.choice(['std', 'std', 'mol_first', 'reordered'])
+        knobs['layout'] = rng.choice(['std', 'std', 'mol_first', 'reordered', 'wrapped_names', 'scaled_too'])
         knobs['line_order'] = rng.choice(['sorted', 'sorted', 'shuffled'])      # LAMMPS does not sort atom lines by id unless asked
     # dialects of the format that other programs write (simlib/foreign.py rewrites the mdtraj-written file value for value)
     if fmt == 'dcd' and rng.chance(0.45):
@@ -68,6 +68,9 @@ def _gen_file(rng, formats, tier, max_frames=None):
         knobs['dialect'] = rng.choice(['empty_comment', 'blank_comment'])
     if fmt == 'gro' and rng.chance(0.35):
         knobs['dialect'] = 'velocities'
+    if fmt == 'nc' and rng.chance(0.35):
+        # laid out as AMBER's own programs do; the HDF5-based container only where the netCDF4 library reads the file
+        knobs['dialect'] = rng.choice(['amber_64bit', 'amber_classic', 'amber_vel', 'amber_remd'] + ([] if knobs.get('backend') == 'scipy' else ['amber_nc4', 'amber_nc4']))
     # extension aliases registered for the same reader, gz variants, and where the molecule sits (negative and large coordinates)
     alias = {'nc': ['.nc', '.nc', '.netcdf', '.ncdf'], 'mdcrd': ['.mdcrd', '.crd'], 'h5': ['.h5', '.h5', '.hdf5'],
              'xyz': ['.xyz', '.xyz', '.xyz.gz'], 'pdb': ['.pdb', '.pdb.gz']}
@@ -158,7 +161,7 @@ def generate(check, rng, tier, run_index):
         f['cell'] = files[0]['cell']
         f['knobs'] = dict(files[0]['knobs'])
         if f['fmt'] == 'lammpstrj':
-            f['knobs']['layout'] = rng.choice(['std', 'mol_first', 'reordered'])     # files of one format may differ in column layout
+            f['knobs']['layout'] = rng.choice(['std', 'mol_first', 'reordered', 'wrapped_names', 'scaled_too'])     # files of one format may differ in column layout
             f['knobs']['line_order'] = rng.choice(['sorted', 'shuffled'])
     subsets = _gen_subsets(rng)
     handles = [{'file': rng.below(nfiles)} for _ in range(2)]
@@ -283,6 +286,11 @@ class World(object):
                     foreign.xyz_blank_comments(path, 'empty' if dia == 'empty_comment' else 'blank')
                 elif fs['fmt'] == 'gro':
                     foreign.gro_add_velocities(path, fs['seed'])
+                elif fs['fmt'] == 'nc' and dia.startswith('amber'):
+                    dm = {'amber_classic': 'NETCDF3_CLASSIC', 'amber_nc4': 'NETCDF4'}.get(dia, 'NETCDF3_64BIT_OFFSET')
+                    if any(g['fmt'] == 'nc' and g.get('knobs', {}).get('backend') == 'scipy' for g in case['files']):
+                        dm = dm.replace('NETCDF4', 'NETCDF3_64BIT_OFFSET')      # scipy's reader (selected for this run) knows NetCDF 3 only
+                    foreign.nc_as_amber_writes(path, dm, dia != 'amber_64bit', dia == 'amber_remd', fs['seed'])
             top_path = os.path.join(workdir, 'top%d.pdb' % k)
             self.files.append({'spec': fs, 'path': path, 'traj': t, 'xyz': x, 'time': tm, 'L': L, 'A': A, 'ox': origin[0],
                                'top_path': top_path, 'top_saved': False, 'F': None, 'shared_top': t.topology.copy()})
@@ -323,13 +331,18 @@ def _relayout_lammpstrj(path, layout, shuffle=False, seed=0):
                 flush_block()
                 in_atoms = line.startswith('ITEM: ATOMS')
                 if in_atoms and layout != 'std':
-                    line = 'ITEM: ATOMS mol id type xu yu zu\n' if layout == 'mol_first' else 'ITEM: ATOMS type zu id q xu yu\n'
+                    line = {'mol_first': 'ITEM: ATOMS mol id type xu yu zu\n', 'reordered': 'ITEM: ATOMS type zu id q xu yu\n',
+                            'wrapped_names': 'ITEM: ATOMS id type x y z\n',
+                            'scaled_too': 'ITEM: ATOMS id type xs ys zs x y z vx vy vz\n'}[layout]
                 out.append(line)
                 continue
             if in_atoms and line.strip():
                 if layout != 'std':
                     i, ty, x, y, z = line.split()
-                    line = ('1 %s %s %s %s %s\n' % (i, ty, x, y, z)) if layout == 'mol_first' else ('%s %s %s 0.5 %s %s\n' % (ty, z, i, x, y))
+                    line = {'mol_first': '1 %s %s %s %s %s\n' % (i, ty, x, y, z), 'reordered': '%s %s %s 0.5 %s %s\n' % (ty, z, i, x, y),
+                            'wrapped_names': '%s %s %s %s %s\n' % (i, ty, x, y, z),
+                            # the documented preference: unscaled x y z are used when scaled columns are present too
+                            'scaled_too': '%s %s 0.25 0.5 0.75 %s %s %s 0.1 -0.2 0.3\n' % (i, ty, x, y, z)}[layout]
                 block.append(line)
             else:
                 out.append(line)
